@@ -49,6 +49,13 @@ CLAIMED = {
          "Necessary conditions for 'no two simultaneously live registers share a machine register'; the colouring/spilling algorithm is not decided.",
          "Trusted: syn; rustc MIR; petgraph; spec/isa.txt written from the FuelVM ISA and fuel-asm/fuel-vm 0.66.4.",
          "DESIGN.md §3 C08"),
+ "C12": ("E-MIR+E-TAB+E-SW", "other", "who-may-call and argument-provenance rules on the storage key derivation (MIR), CFG order of hasher inputs, constant/separator SPEC (syn), Sway std-lib domain constant check, padding-arithmetic anti-pattern rule",
+         "Decides: the emitted storage slots and the generated storage accesses take a field's key from the same function with the same inputs; "
+         "the implicit key is sha256(domain byte 0 ++ `storage[::ns]*.field`) with the domain fed first and an explicit `in` key used verbatim; "
+         "StorageMap hashes under a different domain byte placed first; multi-slot values use key + i; the slot serializer has no pad count that is "
+         "non-zero for aligned lengths. The byte layout of values inside slots versus what std::storage reads reassemble is not decided.",
+         "Trusted: rustc MIR; syn; fuel_crypto::Hasher = SHA-256 of concatenated inputs.",
+         "DESIGN.md §3 C12"),
  "C15": ("E-MIR", "other", "lint-configuration check + MIR enumeration of iteration over randomly seeded hash collections with order-insensitive-sink idioms (forward iterator-chain following) + who-may-call rule on ambient sources",
          "Decides: the project's deny lint on hash-order iteration stays armed for every output-affecting crate; every iteration-API call on a "
          "RandomState / hashbrown-default / DashMap collection in those crates ends in an order-insensitive sink or is an individually reviewed "
